@@ -1231,3 +1231,53 @@ Proof.
   intros Hwf H. destruct (wf_pipeline_elim p Hwf) as [ls Hw]. unfold eval_top.
   eapply eval_frame; eauto. apply rk_lt_N. exact Hw.
 Qed.
+
+(* ====================================================================================================
+   Pipeline.run validates its keywords BEFORE evaluating (Pipe.run_checked = run_precheck, then run)
+   ==================================================================================================== *)
+Lemma run_checked_pass body pick p o kw full :
+  run_precheck p o kw = Ok tt -> run_checked body pick p o kw full = run body pick p o kw full.
+Proof. unfold run_checked. now intros ->. Qed.
+
+Lemma run_precheck_err_silent body pick p o kw full e :
+  run_precheck p o kw = Err e -> run_checked body pick p o kw full = (Err e, []).
+Proof. unfold run_checked. now intros ->. Qed.
+
+Lemma missingb_sufficient p kw o : missingb p kw o = false <-> sufficient p kw o.
+Proof.
+  unfold missingb, sufficient. split.
+  - intros H f cur Hf Hc Hs.
+    assert (existsb (fun f0 => existsb (fun c => match source_of p kw f0 c with SMissing => true | _ => false end)
+                                      (pnames f0)) (needed_top p kw o) = true); [|congruence].
+    apply existsb_exists. exists f. split; [assumption|]. apply existsb_exists. exists cur. split; [assumption|].
+    now rewrite Hs.
+  - intros H. destruct (existsb _ (needed_top p kw o)) eqn:E; [|reflexivity].
+    apply existsb_exists in E as [f [Hf E]]. apply existsb_exists in E as [cur [Hc E]].
+    destruct (source_of p kw f cur) eqn:Es; try discriminate. exfalso. exact (H f cur Hf Hc Es).
+Qed.
+
+Lemma surplusb_no_unused p kw o : surplusb p kw o = false <-> no_unused p kw o.
+Proof.
+  unfold surplusb, no_unused. rewrite negb_false_iff. rewrite subset_str_incl. reflexivity.
+Qed.
+
+(* Complete characterisation of the call as the code performs it: a missing argument, else a surplus keyword -
+   both with an EMPTY call log -, else the evaluation *)
+Theorem run_checked_char body pick p o kw : wf_pipeline p -> is_output p o = true -> aget kw o = None ->
+  (missingb p kw o = true -> run_checked body pick p o kw false = (Err ValueError, []))
+  /\ (missingb p kw o = false -> surplusb p kw o = true ->
+      run_checked body pick p o kw false = (Err UnusedParametersError, []))
+  /\ (missingb p kw o = false -> surplusb p kw o = false ->
+      run_checked body pick p o kw false = run body pick p o kw false
+      /\ fst (run body pick p o kw false) = lift_value (eval_top body pick p kw o)).
+Proof.
+  intros Hwf Ho Hkw.
+  assert (Hn : is_node p o = true) by (unfold is_node; now rewrite Ho).
+  assert (Hk : ahas kw o = false) by now apply ahas_false_iff.
+  unfold run_checked, run_precheck. rewrite Hn, Hk, Ho. cbn [negb orb].
+  split; [|split].
+  - intros Hm. now rewrite Hm.
+  - intros Hm Hs. now rewrite Hm, Hs.
+  - intros Hm Hs. rewrite Hm, Hs. split; [reflexivity|].
+    apply run_eq_eval; try assumption. now apply surplusb_no_unused.
+Qed.
